@@ -53,3 +53,12 @@ Theorem C05_tables :
   forallb (fun v => in_list_str v tpm_manufacturers) tcg_vendor_registry = true.
 Proof. vm_compute. repeat split. Qed.
 Print Assumptions C05_tables.
+
+(* completeness from first principles, per format: ANY statement meeting the declared rules of its format
+   (Spec/FormatSpec.v: packed basic/self, fido-u2f, tpm incl. the AIK profile, apple, android-key,
+   android-safetynet, and the empty statement of `none`) is accepted by the dispatch *)
+From PW Require Import Proofs.FormatComplete.
+Theorem C05_complete_statement : forall O P fmt st adr cdj ad att,
+  StatementRules O P fmt st adr cdj ad att -> verify_statement O P fmt st adr cdj ad att = Ok tt.
+Proof. intros O P fmt st adr cdj ad att H. apply verify_statement_iff, H. Qed.
+Print Assumptions C05_complete_statement.
